@@ -43,7 +43,7 @@ CLAIMS = {
             "Props/C11.lean"),
 }
 
-READY = ["C01", "C02", "C03", "C04", "C06", "C07", "C09", "C10", "C11", "C13", "C14", "C15", "C19", "C20"]   # properties whose Props file holds real theorems
+READY = ["C01", "C02", "C03", "C04", "C05", "C06", "C07", "C08", "C09", "C10", "C11", "C12", "C13", "C14", "C15", "C16", "C17", "C18", "C19", "C20"]   # properties whose Props file holds real theorems
 CLAIMS.update({
     "C13": ("Lean theorems over exact rationals: the delivery tick ceil(a*tps) is never before the arrival and is the first such tick; it is monotone in the arrival; "
             "with rows in arrival order each tick returns exactly the pipelines whose delivery tick it is, in file order, exactly once, none after the end; the gentrace "
@@ -77,6 +77,36 @@ CLAIMS.update({
             "a pipeline reported complete is dropped and never reported again; reply decoding is the identity on registered operators. Tie: loop-back HTTP server recording every "
             "request body, compared with the executor's real state and with the Lean bookkeeping model; the peer's decisions replayed in-process give identical statistics.",
             "Props/C19.lean; sockets/JSON/requests exercised not modelled; the Go reference cannot be built here"),
+})
+CLAIMS.update({
+    "C05": ("Lean: the documented time/memory model as a specification (`specRun`/`specTicks`, written from the documentation, independent of the tick generator) with theorems "
+            "about it: the segment formulas, the divisor of each scaling law at each cut-off and its monotonicity in the CPU count, CPU time antitone in CPUs, I/O flat in CPUs, "
+            "the memory profile (linear growth to the read size / constant declared peak), every operator occupies at least one tick. PARTIAL in one respect: that the tick generator's "
+            "trace *equals* `specRun` is established by the tie, not by a theorem. Tie: thousands of single-container runs of the real code against the specification, exact on the "
+            "binary-exact lattice, either-side only at flagged float boundaries on decimal tick rates; the (law, cpus 1..128) grid of the real scaling functions.", "Props/C05.lean"),
+    "C08": ("PARTIAL. Lean theorems, for every world and every queue state: one round of priority / priority-pool asks no pool for more CPU or RAM than it has free, so the executor's "
+            "verify_valid_assignment accepts it (budget invariant through the three queue runs); the round's assignments are a chain of accepted Assignment constructions, hence no operator "
+            "occurs twice, every operator was PENDING/FAILED and positive resources are requested; priority's suspensions name only active suspendable containers, so verify_valid_suspend "
+            "accepts them; naive and overbook: C17/C18 theorems. NOT proved: that the closed loop of rounds and executor ticks never raises over a whole run (it is false of the shipped code "
+            "in one mode: known finding D11). Tie: closed-loop lock-step of each real scheduler + real Executor against the model on generated configurations (tiny pools, coarse ticks, "
+            "zero-tick segments, both container modes, DAGs), run_simulator end-to-end incl. the `eudoxia init` template and short runs; `check_C08` on every implementation trace.",
+            "Props/C08.lean; the run-to-the-end clause is decided by the tie (differential + Lean-defined checker on traces), not by a theorem"),
+    "C12": ("Lean theorems, for every world and queue state, per round of the priority scheduler: each queue run consumes a prefix of its FIFO queue and assigns in queue order; a lower "
+            "queue is served only if the higher one was drained, and anything left waiting implies every pool is out of free CPU or RAM in the scheduler's accounting (strict priority + work "
+            "conservation); the chosen pool is open and has the most free RAM; suspensions only while a query job is still waiting, at most one per waiting query job, only active non-query "
+            "containers at an operator boundary; a job remembered under a container found in a suspended list is put back into its queue. NOT proved: arrival order *across* rounds and the "
+            "link from queue membership to 'ready pending operator' (checked on traces). Tie: closed-loop lock-step incl. preemption scenarios with single-tick suspensions, exact-fit pools; "
+            "`check_C12` (order, conservation, preemption rules, re-offer) on every implementation trace.", "Props/C12.lean"),
+    "C16": ("Lean theorems: the class invariant of the three queues holds initially and is kept by every round (so at every round of every run); given it, every assignment of query or "
+            "interactive work goes to pool 0 and every other one to pool 1, first attempts and retries alike; the scheduler never suspends; a failed container's unfinished operators are "
+            "queued together as one job; a retry whose doubled request reaches half of the pool is never assigned; the scheduler's own assertion cannot be tripped by the Assignment "
+            "constructor. Tie: closed-loop lock-step on two pools with mixed priorities and OOM retries; `check_C16` on every implementation trace.", "Props/C16.lean"),
+    "C17": ("Lean theorems about the naive scheduler's round for every queue and world: at most one container per pool, sized to all free CPU and RAM of that pool; pools with nothing free are "
+            "skipped; the queue is served in order; work handed out belongs to a pipeline without failed operators and (single-operator mode) is one ready operator; no suspensions. "
+            "Tie: closed-loop lock-step; `check_C17` on every implementation trace.", "Props/C17.lean"),
+    "C18": ("Lean theorems about the overbook scheduler's round, for every queue and world: every container gets exactly one operator, one CPU and a memory limit equal to its pool's "
+            "whole RAM, on a pool that still had a free CPU in the scheduler's snapshot (the snapshot never goes negative: CPU-bound); the operator's pipeline has fewer than three failed "
+            "containers; operators are left in the queue only when no pool has a free CPU; never suspends. Tie: closed-loop lock-step with overcommit and OOM kills; `check_C18` on every implementation trace.", "Props/C18.lean"),
 })
 CLAIMS = {k: v for k, v in CLAIMS.items() if k in READY}
 
